@@ -5,7 +5,7 @@
    of C09 (the harness runs the bit-exact binary64 instance). *)
 From Coq Require Import List ZArith Lia.
 Import ListNotations.
-From V Require Import Base.U32 Base.Iface Gen.RsConsts C09.Model C09.Proofs C10.Model C10.Frame C10.Proofs C10.Autocal.
+From V Require Import Base.U32 Base.Iface Gen.RsConsts C09.Model C09.Proofs C10.Model C10.Frame C10.Proofs C10.Autocal C10.Calibrated.
 Local Open Scope Z_scope.
 
 (* Bounded power, every situation in which no travel can be accounted (position unknown: not calibrated, calibration
@@ -80,3 +80,31 @@ Print Assumptions C10_autocal_outcome.
 Theorem C10_autocal_step2 : forall k d, ac_step (ac_step2_ok k d) = 3.
 Proof. exact ac_step2_ok_step. Qed.
 Print Assumptions C10_autocal_step2.
+
+(* Bounded power, calibrated move.  Roller shutter (no tilting), ANY task state, ANY sensor readings: from a known
+   position with exactly the output of direction `up` energised (no auto-calibration business pending), callbacks at
+   intervals 0 < dt <= tau: while no falling edge of that output is logged,
+       elapsed time (+ carry at the start)  <  travel time to the end stop + carry_max,
+   carry_max = max(end-stop margin = 1000 * (int)(full_ms * margin/100.0), one position unit T/10000 + 2 us).
+   (The margin used is rs_time_margin of supla_esp_gpio_rs_move_position; a task stops the motor earlier.) *)
+Theorem C10_bounded_power_calibrated : forall o, fp_ok o -> forall up k tau d evs,
+  rsk k -> cal up d -> stamped k d ->
+  let F := full_k up d in
+  0 < F * 1000 < 4294967296 -> 20000 <= F * 1000 -> carry_max o k F + tau < 4294967296 ->
+  0 <= carry_of up d < carry_max o k F ->
+  Forall (fun ev => 0 < fst ev <= tau) evs -> on_run o up k d evs ->
+  10000 * (carry_of up d + elapsed evs) < remaining up (C10.Model.pos d) * (F * 1000) + 10000 * carry_max o k F.
+Proof. exact C10_bounded_power_calibrated_thm. Qed.
+Print Assumptions C10_bounded_power_calibrated.
+
+(* one callback of a calibrated roller shutter = supla_esp_gpio_rs_move_position of C09 on (carry + dt): the C09
+   accounting theorems apply to the whole module, whatever the task processing does in the same callback *)
+Theorem C10_calibrated_callback_is_C09_accounting : forall o, fp_ok o -> forall up k d dt sm d',
+  rsk k -> cal up d -> stamped k d -> 0 <= carry_of up d -> 0 <= dt -> carry_of up d + dt < 4294967296 ->
+  0 < full_k up d * 1000 < 4294967296 ->
+  d' = C10.Model.step o k d (Cb dt sm) -> nofall up (outs d') ->
+  let m := move_position o (cfg_of k d) (C10.Model.pos d) (C10.Model.tilt d) (carry_of up d + dt) (full_k up d) up in
+  cal up d' /\ stamped k d' /\ C10.Model.now d' = C10.Model.now d + dt /\ C10.Model.pos d' = m_pos m /\ C10.Model.tilt d' = C10.Model.tilt d /\
+  carry_of up d' = m_time m /\ m_off m = false /\ time1 d' = time1 d /\ time2 d' = time2 d.
+Proof. exact cal_step_thm. Qed.
+Print Assumptions C10_calibrated_callback_is_C09_accounting.
